@@ -33,7 +33,7 @@ def oracle(ck, sc, rec, label):
     ran = {'train': 0, 'valid': 0}
     pos_m = 0
     per_fit = {}
-    for sn, seg in T.epoch_segments(rec):
+    for sn, seg, before in T.epoch_contexts(rec):
         fi = sn['fit']
         per_fit.setdefault(fi, []).append(sn)
         ncbs = fits[fi]['ncbs']
@@ -74,7 +74,7 @@ def oracle(ck, sc, rec, label):
                 entry = series[ran[ph] - 1]
                 per_batch = [[c['value'] for c in calls if c['i'] == i and tuple(c['draw']) == (ph, k)] for k in draws]
                 if any(len(v) == 0 for v in per_batch):
-                    if not (ph == 'train' and sn['closure']):      # a closure optimiser that never calls its closure: nothing to average
+                    if not (ph == 'train' and before['closure']):  # a closure optimiser that never calls its closure: nothing to average
                         ck.fail(f'metric_mean/not-evaluated', f'metric m{i} was not evaluated on every {ph} batch of the epoch', inp)
                     continue
                 cands = [sum(Fraction(v[-1]) for v in per_batch) / len(draws), sum(Fraction(v[0]) for v in per_batch) / len(draws)]
@@ -146,7 +146,7 @@ def main():
     for label, sc, exact in regression_scenarios():
         camp.add(label, sc, exact)
     r = ck.rng('scenarios')
-    n = 360 if ck.thorough() else 70
+    n = 1080 if ck.thorough() else 70
     for i in range(n):
         if i % 6 == 5:
             sc = T.gen_scenario(r, opt_kinds=('adam', 'lbfgs'), cb_actions=('stop', 'set_nb'), lids=(0, 1, 4))
